@@ -158,6 +158,19 @@ func (e *Env) ident(id *ast.Ident) *Val {
 	if v, ok := e.vars["old:"+name]; ok {
 		return v
 	}
+	if e.fr != nil && e.fr.fn == e.fn {
+		for _, fv := range e.fn.FreeVars {
+			if fv.Name() == name {
+				if v, ok := e.fr.vals[fv]; ok {
+					// free variables are captured by reference: the closure sees the cell
+					if _, isPtr := fv.Type().Underlying().(*types.Pointer); isPtr {
+						return c.Load(e.st, c.ptrOf(v))
+					}
+					return v
+				}
+			}
+		}
+	}
 	if pkg := e.pkg(); pkg != nil {
 		if m := pkg.Members[name]; m != nil {
 			switch x := m.(type) {
@@ -574,6 +587,18 @@ func (e *Env) call(n *ast.CallExpr) *Val {
 		return &Val{T: a.T, Term: ite(arg(0).Term, a.Term, b.Term)}
 	case "forall", "exists":
 		id, ok := n.Args[0].(*ast.Ident)
+		if ok && len(n.Args) == 2 {
+			// unbounded form: forall(k, body)
+			c.nsym++
+			qv := fmt.Sprintf("q_%s_%d", id.Name, c.nsym)
+			c.quant++
+			body := e.with(id.Name, intVal(qv)).eval(n.Args[1])
+			c.quant--
+			if fname == "forall" {
+				return boolVal(fmt.Sprintf("(forall ((%s Int)) %s)", qv, body.Term))
+			}
+			return boolVal(fmt.Sprintf("(exists ((%s Int)) %s)", qv, body.Term))
+		}
 		if !ok || len(n.Args) != 4 {
 			fail("%s(i, lo, hi, body)", fname)
 		}
@@ -617,6 +642,64 @@ func (e *Env) call(n *ast.CallExpr) *Val {
 		v := arg(0)
 		t := e.typeExpr(n.Args[1])
 		return c.unbox(nil, app("ival", v.Term), t)
+	case "uf":
+		// uf("name", x...): uninterpreted integer function (for facts about dependencies that are assumed)
+		lit, ok := n.Args[0].(*ast.BasicLit)
+		if !ok {
+			fail("uf(\"name\", args...)")
+		}
+		name, _ := strconv.Unquote(lit.Value)
+		var ts, sorts []string
+		for i := 1; i < len(n.Args); i++ {
+			a := arg(i)
+			ts = append(ts, a.Term)
+			sorts = append(sorts, sortOf(a.T))
+		}
+		fn := sym("uf." + name)
+		c.declareFun(fn, sorts, "Int")
+		return intVal(app(fn, ts...))
+	case "contentid":
+		// contentid(x): identity of the byte content of a string or []byte (equal content <=> equal id)
+		v := arg(0)
+		switch sortOf(v.T) {
+		case "Str":
+			return intVal(app("strid", v.Term))
+		case "Slice":
+			et := v.T.Underlying().(*types.Slice).Elem()
+			p := &Ptr{Comp: "E:" + typeName(et), Dim: 2, Ref: app("lref", v.Term), T0: et, Elem: et}
+			cur, _ := c.loadLeaf(e.st, p, nil)
+			c.declareFun("bytesid", []string{"(Array Int Int)", "Int", "Int"}, "Int")
+			return intVal(app("bytesid", cur, app("loff", v.Term), app("llen", v.Term)))
+		}
+		fail("contentid of %s", shortTypeName(v.T))
+	case "unchanged":
+		// unchanged(x): x denotes the same value / same map contents / same slice elements as before the call
+		ne := *e
+		ne.st = e.old
+		ne.cells = false
+		nv, ov := arg(0), ne.eval(n.Args[0])
+		switch u := nv.T.Underlying().(type) {
+		case *types.Map:
+			has, val, ks, vs := c.mapComps(u)
+			hs := "(Array Int (Array " + ks + " Bool))"
+			vsrt := "(Array Int (Array " + ks + " " + vs + "))"
+			return boolVal(and(eq(nv.Term, ov.Term),
+				eq(app("select", c.H(e.st, has, hs), nv.Term), app("select", c.H(e.old, has, hs), nv.Term)),
+				eq(app("select", c.H(e.st, val, vsrt), nv.Term), app("select", c.H(e.old, val, vsrt), nv.Term)),
+				eq(app("select", c.H(e.st, "M:"+typeName(u)+".len", "(Array Int Int)"), nv.Term), app("select", c.H(e.old, "M:"+typeName(u)+".len", "(Array Int Int)"), nv.Term))))
+		case *types.Slice:
+			et := u.Elem()
+			parts := []string{eq(nv.Term, ov.Term)}
+			c.nsym++
+			qv := fmt.Sprintf("q_u_%d", c.nsym)
+			c.elemLeaves(et, func(leaf, inner, sort string) {
+				a := app("select", app("select", c.H(e.st, leaf, sort), app("lref", nv.Term)), qv)
+				b := app("select", app("select", c.H(e.old, leaf, sort), app("lref", nv.Term)), qv)
+				parts = append(parts, fmt.Sprintf("(forall ((%s Int)) (=> (and (<= (loff %s) %s) (< %s (+ (loff %s) (llen %s)))) (= %s %s)))", qv, nv.Term, qv, qv, nv.Term, nv.Term, a, b))
+			})
+			return boolVal(and(parts...))
+		}
+		return boolVal(c.equal(nv, ov))
 	case "grown":
 		// grown(new, old): new is old's array re-sliced in place, or a freshly allocated array
 		nv, ov := arg(0), arg(1)
